@@ -249,6 +249,9 @@ type Exec struct {
 	mutable    map[*ssa.Alloc]bool
 	entryFinal *State
 	entryHeap  *State
+	sconsts    []int64
+	retMain    map[int64]bool
+	retSub     map[int64]bool
 }
 
 // SpecHook lets a proof driver add hypotheses when the path reads input bytes or jumps.
@@ -483,8 +486,11 @@ func (ex *Exec) oblige(st *State, kind, name string, goal *Term, pos token.Pos) 
 	}
 	o := &Oblig{Name: name, Kind: kind, Fn: ex.fn.Name(), NHyp: len(st.pc), Goal: goal, Pos: pos}
 	st.obls = append(st.obls, o)
-	// after checking, the property may be assumed on the rest of the path
-	st.assume(goal)
+	// after checking, the property may be assumed on the rest of the path (a goal that is
+	// plainly false is not assumed: the path goes on so that the failure is reported)
+	if goal != False {
+		st.assume(goal)
+	}
 }
 
 func (ex *Exec) siteName(pos token.Pos, what string) string {
@@ -549,7 +555,13 @@ func (ex *Exec) execInstr(st *State, ins ssa.Instruction) []*State {
 		}
 		ex.oblige(st, "nil-deref", ex.siteName(i.Pos(), "store"), Not(pv.Nil), i.Pos())
 		ex.frameCheck(st, pv.P, i.Pos())
-		ex.storeTo(st, pv.P, ex.val(st, i.Val))
+		sval := ex.val(st, i.Val)
+		if r, ok := pv.P.Root.(*Region); ok && !r.Input {
+			if t, ok := sval.(*Term); ok {
+				st.events = append(st.events, &Event{Kind: "store-elem", Site: r.Name, Info: map[string]*Term{"val": t}, NPC: len(st.pc), Pos: i.Pos()})
+			}
+		}
+		ex.storeTo(st, pv.P, sval)
 	case *ssa.UnOp:
 		st.regs[i] = ex.unop(st, i)
 	case *ssa.BinOp:
@@ -654,6 +666,9 @@ func (ex *Exec) unop(st *State, i *ssa.UnOp) Value {
 		ex.oblige(st, "nil-deref", ex.siteName(i.Pos(), "load"), Not(pv.Nil), i.Pos())
 		if pv.Nil == True {
 			return ex.freshValue(st, "nilload", i.Type(), "fresh")
+		}
+		if r, ok := pv.P.Root.(*Region); ok && !r.Input && r.Kind != "string" && r.Kind != "view" {
+			st.events = append(st.events, &Event{Kind: "load-elem", Site: r.Name, NPC: len(st.pc), Pos: i.Pos()})
 		}
 		v := ex.load(st, pv.P)
 		if op, ok := v.(*OpaqueV); ok && op.T == nil {
@@ -1069,7 +1084,9 @@ func (ex *Exec) makeSlice(st *State, i *ssa.MakeSlice) []*State {
 	cp := Resize(ex.term(st, i.Cap), 64, true)
 	et := i.Type().Underlying().(*types.Slice).Elem()
 	es := sortOf(et)
-	ex.oblige(st, "makeslice", ex.siteName(i.Pos(), "make"), And(Sle(I64(0), ln), Sle(ln, cp), Sle(cp, I64(1<<maxAllocLog))), i.Pos())
+	ex.oblige(st, "makeslice", ex.siteName(i.Pos(), "make"), And(Sle(I64(0), ln), Sle(ln, cp)), i.Pos())
+	// A-maxalloc: an allocation that returns fits in the address space
+	st.assume(Sle(cp, I64(1<<maxAllocLog)))
 	if es == nil {
 		st.regs[i] = &OpaqueV{T: i.Type(), Name: "makeslice"}
 		ex.allocEvent(st, "make", Mul(cp, I64(sizeofType(et))), i.Pos())
@@ -1184,22 +1201,30 @@ func (ex *Exec) inlineClosure(st *State, cv ClosureV) []*State {
 	return out
 }
 
-// frameCheck records a store event for the frame obligations (no write to input, no write to globals).
+// frameCheck: every store to memory that is not a local variable gets a frame obligation
+// (never into an input region, never into a package-level variable).
 func (ex *Exec) frameCheck(st *State, p Place, pos token.Pos) {
 	switch r := p.Root.(type) {
 	case *Region:
-		if r.Input {
-			ex.oblige(st, "frame", ex.siteName(pos, "write-to-input"), False, pos)
-		}
+		ex.obligeAlways(st, "frame", ex.siteName(pos, "store-not-to-input"), BoolC(!r.Input), pos)
 		if r.Kind == "string" || r.Kind == "view" {
 			ex.unsupported(st, "write through array view / string", pos)
 		}
 	case *ssa.Global:
-		if ex.fn.Name() != "init" {
-			ex.oblige(st, "frame", ex.siteName(pos, "global-write"), False, pos)
-		}
+		ex.obligeAlways(st, "frame", ex.siteName(pos, "store-not-to-global"), BoolC(ex.fn.Name() == "init"), pos)
 	case *Object:
+		ex.obligeAlways(st, "frame", ex.siteName(pos, "store-to-caller-object"), True, pos)
 		st.events = append(st.events, &Event{Kind: "store", Site: r.Name, NPC: len(st.pc), Pos: pos})
+	}
+}
+
+// obligeAlways records the obligation even when it is trivially true (so that frame
+// obligations are counted and a later violation has a name that existed before).
+func (ex *Exec) obligeAlways(st *State, kind, name string, goal *Term, pos token.Pos) {
+	o := &Oblig{Name: name, Kind: kind, Fn: ex.fn.Name(), NHyp: len(st.pc), Goal: goal, Pos: pos}
+	st.obls = append(st.obls, o)
+	if goal != True && goal != False {
+		st.assume(goal)
 	}
 }
 
